@@ -83,8 +83,8 @@ func init() {
 		},
 		{
 			ID:          "C02",
-			Rules:       []RuleUse{{Rule: "R-GATE", Bodies: []string{"v5", "codec"}, KeyHas: []string{"MergePatch", "sink "}}, use("R-MERGEWIRE", "v5"), {Rule: "R-NIL", Bodies: []string{"v5"}, KeyHas: []string{"doMergePatch", "merge", "prune"}}},
-			Explanation: "Decided for the v5 body: R-GATE (both inputs of MergePatch pass json.Valid before the validity-assuming parse), R-MERGEWIRE (MergePatch runs doMergePatch in apply mode with its parameters in order), R-NIL over doMergePatch/merge/mergeDocs/prune* (the nil nodes that stand for null members are never dereferenced).",
+			Rules:       []RuleUse{{Rule: "R-GATE", Bodies: []string{"v5", "codec"}, KeyHas: []string{"MergePatch", "sink "}}, use("R-MERGEWIRE", "v5"), {Rule: "R-NIL", Bodies: []string{"v5"}, KeyHas: []string{"doMergePatch", "merge", "prune"}}, {Rule: "R-KEYS", Bodies: []string{"v5"}, KeyHas: []string{"mergeDocs", "pruneDocNulls", "doMergePatch", "(*partialDoc)", "emitter"}}},
+			Explanation: "Decided for the v5 body: R-GATE (both inputs of MergePatch pass json.Valid before the validity-assuming parse), R-MERGEWIRE (MergePatch runs doMergePatch in apply mode with its parameters in order), R-NIL over doMergePatch/merge/mergeDocs/prune* (the nil nodes that stand for null members are never dereferenced), R-KEYS over the merge walk (merged members are neither lost nor duplicated: keys/obj pairing in mergeDocs and partialDoc.set/remove; pruning does not skip members — no loop over keys rewrites keys; a null document is rejected before its stale key list could be used).",
 			NotDecided:  "that the recursive member-by-member result equals RFC 7396 MergePatch(doc, patch) (value-level); the 'non-object document is treated as {}' clause.",
 			Trusted:     commonTrusted, Assumptions: commonAssumptions,
 		},
@@ -97,8 +97,8 @@ func init() {
 		},
 		{
 			ID:          "C04",
-			Rules:       []RuleUse{use("R-GATE", "v5", "codec"), use("R-NIL"), use("R-TYPESTATE"), use("R-RAW"), use("R-STALERAW"), use("R-DISPATCH"), use("R-REPLACE"), use("R-COPYISO"), use("R-SCAN", "codec"), use("R-DRIVER", "codec")},
-			Explanation: "Decided for both library bodies, as a census of potential panic sites: R-GATE (every exported []byte parameter passes json.Valid before any validity-assuming parse, which panics on ill-formed text), R-NIL (every dereference of a node/container/raw message that may be the nil spelling of null is guarded on every path), R-TYPESTATE (which==eDoc implies a non-nil doc; a nil array container is confined to the root slot and scratch nodes and every consumer tests for it), R-RAW (raw is dereferenced only where it cannot be nil), R-STALERAW (raw bytes are re-read as content only while the node is unparsed), R-DISPATCH (handlers dereference only the members the validator requires for their kind), R-REPLACE (set on an array only after a successful get of the same slot, which is what bounds its index), R-COPYISO (copy never inserts an alias of the source, so no operation sequence can make a value contain itself — the encoder would never return on a cyclic document), R-SCAN + R-DRIVER (the json.Valid gate that the panic-freedom of the validity-assuming decoder rests on accepts exactly RFC 8259).",
+			Rules:       []RuleUse{use("R-GATE", "v5", "codec"), use("R-NIL"), use("R-TYPESTATE"), use("R-RAW"), use("R-STALERAW"), use("R-DISPATCH"), use("R-REPLACE"), use("R-COPYISO"), use("R-SCAN", "codec"), use("R-DRIVER", "codec"), {Rule: "R-KEYS", Bodies: []string{"v5"}, KeyHas: []string{"emitter", "obj != nil", "whole-map"}}},
+			Explanation: "Decided for both library bodies, as a census of potential panic sites: R-GATE (every exported []byte parameter passes json.Valid before any validity-assuming parse, which panics on ill-formed text), R-NIL (every dereference of a node/container/raw message that may be the nil spelling of null is guarded on every path), R-TYPESTATE (which==eDoc implies a non-nil doc; a nil array container is confined to the root slot and scratch nodes and every consumer tests for it), R-RAW (raw is dereferenced only where it cannot be nil), R-STALERAW (raw bytes are re-read as content only while the node is unparsed), R-DISPATCH (handlers dereference only the members the validator requires for their kind), R-REPLACE (set on an array only after a successful get of the same slot, which is what bounds its index), R-COPYISO (copy never inserts an alias of the source, so no operation sequence can make a value contain itself — the encoder would never return on a cyclic document), R-SCAN + R-DRIVER (the json.Valid gate that the panic-freedom of the validity-assuming decoder rests on accepts exactly RFC 8259), R-KEYS (inserts into the member map happen only under an obj != nil fact — a nil map write panics; the trusted emitter writes names and values only through the codec's encoder, so what it emits — and the unvalidated parser later re-reads — is well-formed).",
 			NotDecided:  "termination and stack exhaustion; panics inside the inherited decoder/encoder and reflect on well-formed input (trusted codec contract); run-time out-of-memory.",
 			Trusted:     commonTrusted, Assumptions: commonAssumptions,
 		},
@@ -118,8 +118,8 @@ func init() {
 		},
 		{
 			ID:          "C07",
-			Rules:       []RuleUse{use("R-MERGEWIRE", "v5"), {Rule: "R-GATE", Bodies: []string{"v5", "codec"}, KeyHas: []string{"MergeMergePatches", "sink "}}},
-			Explanation: "Decided for the v5 body: R-MERGEWIRE (MergeMergePatches runs doMergePatch in combine mode, constant true, with its parameters in order), R-GATE (both patches pass json.Valid).",
+			Rules:       []RuleUse{use("R-MERGEWIRE", "v5"), {Rule: "R-GATE", Bodies: []string{"v5", "codec"}, KeyHas: []string{"MergeMergePatches", "sink "}}, {Rule: "R-KEYS", Bodies: []string{"v5"}, KeyHas: []string{"mergeDocs", "doMergePatch", "(*partialDoc)", "emitter"}}},
+			Explanation: "Decided for the v5 body: R-MERGEWIRE (MergeMergePatches runs doMergePatch in combine mode, constant true, with its parameters in order), R-GATE (both patches pass json.Valid), R-KEYS over mergeDocs (a deletion that is new to the first patch is actually emitted: in the combine branch the null member is stored and its key appended under a membership scan whose flag is initialised inside the iteration).",
 			NotDecided:  "the composition law over all (D, P1, P2) (value-level).",
 			Trusted:     commonTrusted, Assumptions: commonAssumptions,
 		},
@@ -132,9 +132,9 @@ func init() {
 		},
 		{
 			ID:          "C09",
-			Rules:       []RuleUse{use("R-EFFECT"), use("R-GLOBALS"), use("R-POOL"), use("R-POOLINIT")},
-			Explanation: "Decided for the v5 library, the embedded codec and the legacy library: R-EFFECT (a census of every store / copy / append / map update / delete / writing std call whose target memory has a type the caller can share with the library — byte slices and RawMessage contents and headers, Operation, Patch, ApplyOptions: the root of each is freshly allocated in the call, or it is a parameter and becomes a summary pushed to all call sites; no exported function ends up writing through a parameter; decoder targets are fresh or call-local; working types are never published into globals or into a Patch), R-GLOBALS (every package-level variable is immutable after init, a sync.Pool/sync.Map used only through its methods, or configuration that library code only reads), R-POOL (pooled decoder/encoder/scanner states are not used after Put, not retained, and no result aliases them — Marshal returns a copy), R-POOLINIT (no field of a recycled state can be read before it is rewritten, except reviewed idioms with their own structural checks; useNumber is forced in every entry point): together, nothing written by one call is visible to a later one and nothing a call reads was left by an earlier one.",
-			NotDecided:  "full functional determinism of the inherited codec (its type caches are trusted to be semantically transparent); map-iteration-order effects on output bytes (R-MAPORDER, claimed under C05 when built).",
+			Rules:       []RuleUse{use("R-EFFECT"), use("R-GLOBALS"), use("R-POOL"), use("R-POOLINIT"), {Rule: "R-KEYS", Bodies: []string{"v5"}, KeyHas: []string{"whole-map", "obj != nil", "decoder fill", "whole-list"}}, use("R-MAPORDER")},
+			Explanation: "Decided for the v5 library, the embedded codec and the legacy library: R-EFFECT (a census of every store / copy / append / map update / delete / writing std call whose target memory has a type the caller can share with the library — byte slices and RawMessage contents and headers, Operation, Patch, ApplyOptions: the root of each is freshly allocated in the call, or it is a parameter and becomes a summary pushed to all call sites; no exported function ends up writing through a parameter; decoder targets are fresh or call-local; working types are never published into globals or into a Patch), R-GLOBALS (every package-level variable is immutable after init, a sync.Pool/sync.Map used only through its methods, or configuration that library code only reads), R-POOL (pooled decoder/encoder/scanner states are not used after Put, not retained, and no result aliases them — Marshal returns a copy), R-POOLINIT (no field of a recycled state can be read before it is rewritten, except reviewed idioms with their own structural checks; useNumber is forced in every entry point): R-KEYS (the one recycled field that can be stale, lastKeys, is only ever consumed together with a non-nil freshly decoded member map: obj is never replaced or filled without keys being stored alongside, and merge code touches keys only under obj != nil), R-MAPORDER (identical bytes for Apply/CreateMergePatch/Equal do not depend on map iteration order): together, nothing written by one call is visible to a later one and nothing a call reads was left by an earlier one.",
+			NotDecided:  "full functional determinism of the inherited codec (its type caches are trusted to be semantically transparent);",
 			Trusted:     commonTrusted, Assumptions: commonAssumptions,
 		},
 		{
@@ -174,9 +174,9 @@ func init() {
 		},
 		{
 			ID:          "C15",
-			Rules:       []RuleUse{use("R-OPTS", "v5"), use("R-INDENT", "v5"), {Rule: "R-COPYLIMIT", Bodies: []string{"v5"}, KeyHas: []string{"measured as spelled"}}, {Rule: "R-KEYS", Bodies: []string{"v5"}, KeyHas: []string{"emitter"}}, {Rule: "R-STALERAW", Bodies: []string{"v5"}}},
-			Explanation: "Decided for the v5 body: R-OPTS (every partialDoc that can reach the output carries the caller's options: all composite literals set opts; decoder-allocated documents get doc.opts before the node becomes eDoc, or the node is a scratch copy / has opts stored before it is published; the emitter passes opts.EscapeHTML — true only when opts is nil — to both of its encoder calls), R-INDENT (ApplyIndent hands Indent exactly the bytes Apply returns, produced by MarshalEscaped(document, options.EscapeHTML), with prefix \"\" and the caller's indent, and returns the buffer Indent wrote), R-COPYLIMIT(ii) (copies are re-encoded with the same encoder and flag as the output), R-KEYS emitter (name then obj[name], keys order), R-STALERAW (a passing test never re-parses or re-spells a document node: comparisons work on scratch copies).",
-			NotDecided:  "that an independent parser reads the output back as the intended value; UTF-8 validity; the escaping tables and the scanner-driven compaction themselves (R-ESCSET/R-TABLES/R-SCAN, added when built).",
+			Rules:       []RuleUse{use("R-ESCSET", "codec"), use("R-TABLES", "codec"), use("R-OPTS", "v5"), use("R-INDENT", "v5"), {Rule: "R-COPYLIMIT", Bodies: []string{"v5"}, KeyHas: []string{"measured as spelled"}}, {Rule: "R-KEYS", Bodies: []string{"v5"}, KeyHas: []string{"emitter"}}, {Rule: "R-STALERAW", Bodies: []string{"v5"}}},
+			Explanation: "Decided: R-ESCSET + R-TABLES (codec; exact byte sets by path enumeration: with the flag on, compact — which copies raw values into the output — rewrites exactly {<,>,&} as \\u00XX and E2 80 A8/A9 as \\u202X, and nothing with the flag off; whether a byte is rewritten depends on nothing but the flag parameter and the bytes; HTMLEscape does the same; the two string encoders backslash-escape exactly the control characters, quote and backslash, plus {<,>,&} iff escapeHTML; the tables safeSet/htmlSafeSet/hex have the required contents; MarshalEscaped hands its argument, Marshal the constant true, to the encoders and on to compact). For the v5 body: R-OPTS (every partialDoc that can reach the output carries the caller's options: all composite literals set opts; decoder-allocated documents get doc.opts before the node becomes eDoc, or the node is a scratch copy / has opts stored before it is published; the emitter passes opts.EscapeHTML — true only when opts is nil — to both of its encoder calls), R-INDENT (ApplyIndent hands Indent exactly the bytes Apply returns, produced by MarshalEscaped(document, options.EscapeHTML), with prefix \"\" and the caller's indent, and returns the buffer Indent wrote), R-COPYLIMIT(ii) (copies are re-encoded with the same encoder and flag as the output), R-KEYS emitter (name then obj[name], keys order), R-STALERAW (a passing test never re-parses or re-spells a document node: comparisons work on scratch copies).",
+			NotDecided:  "that an independent parser reads the output back as the intended value; UTF-8 validity of outputs; byte identity of outputs with and without passing test operations beyond the no-re-parse mechanism.",
 			Trusted:     commonTrusted, Assumptions: commonAssumptions,
 		},
 		{
@@ -188,8 +188,8 @@ func init() {
 		},
 		{
 			ID:          "C17",
-			Rules:       []RuleUse{use("R-SCAN", "codec"), use("R-DRIVER", "codec"), use("R-POOL", "codec"), use("R-POOLINIT", "codec"), use("R-KEYORDER", "codec"), use("R-NUM", "codec"), {Rule: "R-EFFECT", Bodies: []string{"codec"}}, {Rule: "R-GLOBALS", Bodies: []string{"codec"}}},
-			Explanation: "Decided for the embedded codec: R-SCAN + R-DRIVER (the syntax accepted by Valid/Compact/Indent/Unmarshal is exactly RFC 8259 — complete decision of the scanner automaton, see C16), and for the fork-added machinery: R-POOL + R-POOLINIT (the pooled decodeState/encodeState/scanner are transparent: never used after Put, never aliased by a result, every field a recycled state can expose is rewritten first — data, off, savedError, opcode, useNumber, the scanner's step/err/endTop/parseState/bytes, the encoder's buffer and ptrLevel — with reviewed idioms for errorContext, disallowUnknownFields, lastKeys, ptrSeen), R-KEYORDER (the key list reported for an object is its member names in document order: one unconditional append per member, before the value, in a call-local list), R-NUM (numbers keep their literal through decode and encode), R-EFFECT + R-GLOBALS on the codec (no write into caller-visible byte slices; tables such as safeSet/htmlSafeSet/hex are immutable).",
+			Rules:       []RuleUse{use("R-SCAN", "codec"), use("R-DRIVER", "codec"), use("R-ESCSET", "codec"), use("R-TABLES", "codec"), use("R-POOL", "codec"), use("R-POOLINIT", "codec"), use("R-KEYORDER", "codec"), use("R-NUM", "codec"), {Rule: "R-EFFECT", Bodies: []string{"codec"}}, {Rule: "R-GLOBALS", Bodies: []string{"codec"}}},
+			Explanation: "Decided for the embedded codec: R-SCAN + R-DRIVER (the syntax accepted by Valid/Compact/Indent/Unmarshal is exactly RFC 8259 — complete decision of the scanner automaton, see C16), and for the fork-added machinery: R-POOL + R-POOLINIT (the pooled decodeState/encodeState/scanner are transparent: never used after Put, never aliased by a result, every field a recycled state can expose is rewritten first — data, off, savedError, opcode, useNumber, the scanner's step/err/endTop/parseState/bytes, the encoder's buffer and ptrLevel — with reviewed idioms for errorContext, disallowUnknownFields, lastKeys, ptrSeen), R-ESCSET + R-TABLES (Compact, HTMLEscape and both string encoders escape exactly the documented byte sets with the documented spelling; the HTML-escaping switch changes nothing but {<,>,&}, and in compact additionally U+2028/9), R-KEYORDER (the key list reported for an object is its member names in document order: one unconditional append per member, before the value, in a call-local list), R-NUM (numbers keep their literal through decode and encode), R-EFFECT + R-GLOBALS on the codec (no write into caller-visible byte slices; tables such as safeSet/htmlSafeSet/hex are immutable).",
 			NotDecided:  "equivalence with the standard library over all Go values and types (reflection-driven, value-level); Decoder/Encoder stream behaviour; round-trip of strings.",
 			Trusted:     commonTrusted, Assumptions: commonAssumptions,
 		},
